@@ -56,15 +56,11 @@ func (rl *RangeLoop) SetVal(val any, ins inspector.Inspector) {
 // Iterate performs the iteration.
 func (rl *RangeLoop) Iterate() inspector.LoopCtl {
 	rl.c++
-	if rl.ctx.brkD > 0 {
-		return inspector.LoopCtlBrk
-	}
-
 	if rl.cntr > 0 && len(rl.node.loopSep) > 0 {
 		_, _ = rl.w.Write(rl.node.loopSep)
 	}
 	rl.cntr++
-	var err, lerr error
+	var err error
 	child := rl.node.child
 	if len(child) > 0 && child[0].typ == typeCondTrue {
 		child = child[0].child
@@ -72,23 +68,14 @@ func (rl *RangeLoop) Iterate() inspector.LoopCtl {
 	for i := 0; i < len(child); i++ {
 		ch := &child[i]
 		err = rl.tpl.writeNode(rl.w, ch, rl.ctx)
-		if err == ErrLBreakLoop {
-			lerr = err
-		}
-		if err == ErrBreakLoop {
-			if rl.ctx.brkD > 0 {
-				rl.ctx.brkD--
-			}
-			return inspector.LoopCtlBrk
-		}
-		if err == ErrContLoop {
-			return inspector.LoopCtlCnt
+		if err == ErrBreakLoop || err == ErrContLoop {
+			break
 		}
 	}
-	if err == ErrBreakLoop || lerr == ErrLBreakLoop {
-		if rl.ctx.brkD > 0 {
-			rl.ctx.brkD--
-		}
+	// Handle break/lazybreak cases: the instruction (or a child loop) left the number of loops to end in brkD.
+	// This loop is one of them.
+	if rl.ctx.brkD > 0 {
+		rl.ctx.brkD--
 		return inspector.LoopCtlBrk
 	}
 	return inspector.LoopCtlNone
